@@ -257,21 +257,21 @@ def _proxy(ctx):
                   "C02.D1", "proxy:%s-uses-its-map" % fn.split("::")[0], site(q), ok="slot map built from the given ranges", bad="%s does not build its slot map from the map it is given" % fn)
 
 
-def _slot_map(ctx):
+def _slot_map(ctx, R="C02.D1"):
     F = ctx.F
     b = F.one("proxy::slot::SlotMap::from_ranges")
     if b is None:
-        ctx.lost("C02.D1", "slot-map:from_ranges", "not found")
+        ctx.lost(R, "slot-map:from_ranges", "not found")
         return
     ctx.analysed(b)
     sinks = [bb for bb, t in calls_to(b, "Vec::push", "HashMap::insert")]
-    if ctx.floor("C02.D1", "slot-map: push/insert", len(sinks), 2):
+    if ctx.floor(R, "slot-map: push/insert", len(sinks), 2):
         sk = loop_can_skip(b, sinks)
-        ctx.check(not sk, "C02.D1", "slot-map:every-range-inserted", site(b), ok="no node, slot range or range can be skipped (3 nested loops)",
+        ctx.check(not sk, R, "slot-map:every-range-inserted", site(b), ok="no node, slot range or range can be skipped (3 nested loops)",
                   bad="a slot range can be left out of the slot map (way round the loop with head bb%s): its slots are routed as `not covered` / elsewhere" % [h for h, _ in sk],
                   path=str(cfg.lines_of_path(b, sk[0][1])) if sk else None)
         n_loops = len({h for _, h in cfg.natural_loops(b)})
-        ctx.check(n_loops == 3, "C02.D1", "slot-map:loop-nest", site(b), ok="nodes x slot ranges x ranges", bad="expected 3 nested loops, found %d" % n_loops)
+        ctx.check(n_loops == 3, R, "slot-map:loop-nest", site(b), ok="nodes x slot ranges x ranges", bad="expected 3 nested loops, found %d" % n_loops)
     d = F.one("proxy::slot::SlotMapData::new")
     if d is not None:
         ctx.analysed(d)
@@ -284,7 +284,7 @@ def _slot_map(ctx):
                 sl = dd.slice_operand(rv["ops"][0])
                 if sl.has_call("Vec::len") and (sl.binops & {"Sub", "SubWithOverflow"}) and 1 in sl.const_ints():
                     ok = True
-        ctx.check(ok, "C02.D1", "slot-map:index-of-own-address", site(d), ok="slot -> index of the address just pushed", bad="slot entries do not store addrs.len() - 1")
+        ctx.check(ok, R, "slot-map:index-of-own-address", site(d), ok="slot -> index of the address just pushed", bad="slot entries do not store addrs.len() - 1")
 
 
 def _dispatch(ctx):
